@@ -174,10 +174,28 @@ func (kc *Cache[V]) ForEach(k []byte, fn func(e Entry[V]) bool) {
 	defer kc.mu.RUnlock()
 	d := Distance(kc.locus, k)
 	lz := LeadingZeros(d)
-	// everything in these buckets will have lz bits matching k.
-	for i := lz; i < len(kc.buckets); i++ {
-		if !kc.buckets[i].forEach(k, fn) {
+	// everything in this bucket has more than lz bits matching k.
+	if lz < len(kc.buckets) {
+		if !kc.buckets[lz].forEach(k, fn) {
 			return
+		}
+	}
+	// everything in the deeper buckets has exactly lz bits matching k, their order
+	// relative to k is not related to the bucket index, so they are sorted together.
+	if lz+1 < len(kc.buckets) {
+		var ents []Entry[V]
+		for i := lz + 1; i < len(kc.buckets); i++ {
+			for _, e := range kc.buckets[i].entries {
+				ents = append(ents, e)
+			}
+		}
+		slices.SortFunc(ents, func(a, b Entry[V]) bool {
+			return DistanceLt(k, a.Key, b.Key)
+		})
+		for _, e := range ents {
+			if !fn(e) {
+				return
+			}
 		}
 	}
 	// each bucket will have < lz bits matching k.
